@@ -1,14 +1,22 @@
 """C14: interrupted, saved or resumed refinement ends where an uninterrupted run ends.
 
-Per case: one uninterrupted run U with final limits L2 (chosen on the values of a probe run), then for EVERY evaluation index k
-of U (including the last one = continuing with identical limits) an interrupted run: perform with limits L1(k) <= L2 that stop at
-evaluation k, optionally save_to_file / restore_from_file, continue_adaptive_refinement(L2).  Compared with U: refinement
-structure, combination scheme, result, point count.  The model (Entry/C14.v: the resume theorem's loop instantiated on U's
-observation stream, and the C13 driver for the history arrays) predicts the stop indices and the arrays of the interrupted run
-under the theorem's hypothesis `evaluate (evaluate s) = evaluate s`; that hypothesis is checked on the implementation at every
-interruption (evaluate_operation once more on a deep copy).  dill persistence is a RUNTIME COMPARISON (restored vs saved
-instance: result, interpolation, structure, point count), not a proof."""
+Per case: one uninterrupted run U = performSpatiallyAdaptiv(final limits Lf) (Lf placed on the values of a probe run; expressed with
+explicit arguments or arguments left to their defaults), then for EVERY evaluation index k of U (<= 6 per case, always first and last)
+an interrupted HISTORY on a fresh object: 1-3 legs whose limits are drawn independently of each other but all "grow" to Lf (smaller
+or equal budget, looser or equal tolerance, smaller or equal minimum) - stopped by max_evaluations, by the tolerance (tie on an observed
+error or strictly between two), by min_evaluations, or with limits identical to Lf -, then the final continue_adaptive_refinement(Lf)
+(explicit arguments, defaults left implicit, tol=0 after a tolerance stop, positional call), optionally with save_to_file /
+restore_from_file before any continuation.  Compared with U: refinement structure, combination scheme, result, point count.
+
+Model (Entry/C14.v sub 1): the arguments are resolved by the model (defaults of the two entry points), `all_growb` (verified checker
+for limits_grow) must accept every leg, the single run's limits must be the last leg's limits, and legs_on_stream on U's observation
+stream predicts the stop position of every leg and the history arrays / event trace of the whole history (proved to be what the
+abstract-state loop does under the idempotence hypothesis: C14_legs_follow_trajectory; with all legs growing the last position is
+the single run's stop: C14_legs_grow_end_at_single_stop).  The hypothesis `evaluate (evaluate s) = evaluate s` is checked on the
+implementation at every stop (evaluate_operation once more on a deep copy).  dill persistence is a RUNTIME COMPARISON (restored
+vs saved instance: result, interpolation, structure, point count), not a proof."""
 import copy
+import json
 import os
 import random
 from fractions import Fraction
@@ -17,13 +25,15 @@ from .. import sx
 from ..impl import run_impl
 from ..model import run_model
 from . import _adaptive as A
+from . import _legs as LG
 from .c13 import choose_limits, q, finite
 
 ASSUMPTIONS = [
-    'the resume theorem is proved over an abstract deterministic evaluate/refine; its idempotence hypothesis is CHECKED on the '
-    'implementation per interruption point (deep copy, evaluate_operation once more), not proved',
+    'the resume theorems are proved over an abstract deterministic evaluate/refine; their idempotence hypothesis is CHECKED on the '
+    'implementation per stop (deep copy, evaluate_operation once more), not proved',
     'dill save/restore: runtime comparison of restored vs saved instance and of the continuation after restore',
     'max_time not modelled; results compared with 1e-12 relative tolerance, structures/schemes/point counts exactly',
+    'defaults of the entry points (tol 10**-2 / 10**-3, min_evaluations 1, max_evaluations None) are constants of the model',
 ]
 
 TOL = 1e-12
@@ -32,7 +42,8 @@ TOL = 1e-12
 
 
 def gen_case(rng, quick=True):
-    strat = 'dw' if rng.random() < 0.5 else 'es'
+    r = rng.random()
+    strat = 'dw' if r < 0.46 else 'es' if r < 0.92 else 'cell'
     dim = 2 if rng.random() < 0.8 else 3
     a = [rng.choice([0, 0, -1]) for _ in range(dim)]
     b = [rng.choice([1, 1, 2]) for _ in range(dim)]
@@ -48,20 +59,138 @@ def gen_case(rng, quick=True):
         ref = None
     case = dict(strat=strat, a=a, b=b, comps=comps, ref=ref, norm=rng.choice([0, 0, 1, 2]), boundary=True, lmin=1, lmax=2,
                 seed=rng.randrange(1 << 30), errcalc='lib' if rng.random() < 0.5 else ['scripted', rng.randrange(1 << 20)])
-    case['reeval'] = rng.random() < 0.45        # performSpatiallyAdaptiv(reevaluate_at_end=True): evaluate_final_combi at every stop
+    case['reeval'] = rng.random() < 0.4        # performSpatiallyAdaptiv(reevaluate_at_end=True): evaluate_final_combi at every stop
+    big = rng.random()
     if strat == 'dw':
-        case.update(version=rng.choice([6, 6, 3, 7]), rebalancing=rng.random() < 0.6, boundary=rng.random() < 0.85)
-        case['probe_max'] = rng.choice([35, 50, 70]) if dim == 2 else rng.choice([120, 180])
+        case.update(version=rng.choice([6, 6, 3, 7, 2, 8]), rebalancing=rng.random() < 0.6, boundary=rng.random() < 0.85)
+        case['probe_max'] = (rng.choice([35, 50, 70]) if big < 0.9 else 220) if dim == 2 else rng.choice([120, 180])
+        if rng.random() < 0.15:
+            case['ggrid'] = rng.choice(['lagrange2', 'bspline3'])
+        if rng.random() < 0.08:
+            case['margin'] = 0.5
+    elif strat == 'es':
+        # (coarsening version 2 accumulates a result that is not the combination - see the C13 finding on version 2 with
+        #  reevaluate_at_end; a re-evaluation at a stop then changes the result the continuation builds on: excluded here)
+        case.update(lmax=rng.choice([2, 2, 3]), nrbe=rng.choice([1, 1, 2]), auto=rng.random() < 0.25, version=rng.choice([0, 0, 1]))
+        if case['reeval']:
+            case['version'] = 0             # (version 1 is rarely stale in the same way: not combined with a re-evaluation at the stops)
+        case['probe_max'] = (rng.choice([60, 100, 140]) if big < 0.9 else 450) if dim == 2 else rng.choice([250])
+        if rng.random() < 0.1:
+            case['single_dim'] = True
+        if rng.random() < 0.15:
+            case['grid'] = rng.choice(['simpson', 'lagrange2', 'bspline3'])
     else:
-        case.update(lmax=rng.choice([2, 2, 3]), nrbe=rng.choice([1, 1, 2]), auto=rng.random() < 0.25)
-        case['probe_max'] = rng.choice([60, 100, 140]) if dim == 2 else rng.choice([250])
+        case.update(errcalc='lib' if rng.random() < 0.6 else case['errcalc'], reeval=False)
+        case['probe_max'] = rng.choice([50, 90, 140]) if dim == 2 else 200
     return case
+
+
+def express(rng, lim, first):
+    """a leg that MEANS the limits lim = (tol, min, max): arguments equal to the default of the entry point may be left implicit"""
+    leg = {'tol': lim[0], 'min': lim[1], 'max': lim[2]}
+    default_tol = LG.PERFORM_DEFAULT_TOL if first else LG.CONTINUE_DEFAULT_TOL
+    if lim[0] == default_tol and rng.random() < 0.75:
+        del leg['tol']
+    if lim[1] == 1 and rng.random() < 0.5:
+        del leg['min']
+    if lim[2] is None and rng.random() < 0.6:
+        del leg['max']
+    if rng.random() < 0.15:
+        leg['style'] = 'pos'
+    assert LG.resolve(leg, first) == tuple(lim)
+    return leg
+
+
+def draw_final(rng, case, errs, pts):
+    """final limits Lf on the probe's values, incl. tol=0 (refine until the budget is used up) and the two default tolerances"""
+    if case.get('reeval') and rng.random() < 0.5:
+        # re-evaluation at every stop: runs limited by max_evaluations, final limit on / just below / just above an observed count
+        j = rng.randrange(max(1, len(pts) // 2), len(pts)) if len(pts) > 1 else 0
+        lf = [-1.0, 1, max(0, pts[j] + rng.choice([-1, -1, 0, 0, 1, 2, -3]))]
+    else:
+        lf = list(choose_limits(rng, errs, pts))
+    r = rng.random()
+    j = rng.randrange(len(pts) // 2, len(pts))
+    if r < 0.22:
+        lf = [rng.choice([0, 0.0]), rng.choice([1, lf[1]]), pts[j] - rng.choice([0, 1])]
+    elif r < 0.30:
+        lf = [LG.CONTINUE_DEFAULT_TOL, lf[1], pts[j] - rng.choice([0, 1]) if rng.random() < 0.7 else None]
+    elif r < 0.38:
+        lf = [LG.PERFORM_DEFAULT_TOL, lf[1], pts[j] - rng.choice([0, 1]) if rng.random() < 0.7 else None]
+    if LG.first_stop(tuple(lf), errs, pts) is None:
+        lf[2] = pts[-1] - 1
+    return tuple(lf)
+
+
+def draw_interruption(rng, lf, errs, pts, pos, t, first):
+    """limits of a leg that starts at stream position pos, stops at position t and grows to lf; returns (kind, leg) or None"""
+    tolf, mnf, mxf = lf
+    finite_errs = [e for e in errs if e == e and abs(e) != float('inf')]
+    big = max(finite_errs + [1.0, tolf]) * 2 + 1
+    default_tol = LG.PERFORM_DEFAULT_TOL if first else LG.CONTINUE_DEFAULT_TOL
+    cands = [('max', (tolf, mnf, pts[t] - 1)), ('max', (max(tolf, -1.0), min(mnf, 1), pts[t] - 1)), ('same', (tolf, mnf, mxf))]
+    e = errs[t]
+    if e == e and abs(e) != float('inf'):
+        for mn in {mnf, min(mnf, 1), min(mnf, pts[t])}:
+            for mx in {mxf, pts[-1] if mxf is None else mxf}:
+                cands.append(('tol-tie', (e, mn, mx)))
+                cands.append(('tol-above', (e * 1.25 + 1e-9, mn, mx)))
+    for mx in {mxf, pts[t] + 3}:
+        cands.append(('min', (big, pts[t], mx)))
+        cands.append(('tol-default', (default_tol, min(mnf, 1), mx)))
+    rng.shuffle(cands)
+    kinds = {}
+    for kind, lim in cands:
+        if LG.grows(lim, lf) and LG.first_stop(lim, errs, pts, pos) == t:
+            kinds.setdefault(kind, lim)
+    if not kinds:
+        return None
+    order = [k for k in ('tol-tie', 'tol-above', 'min', 'tol-default', 'same', 'max') if k in kinds]
+    # prefer the rarer ways of stopping, keep max_evaluations (always available) at about a third
+    kind = 'max' if ('max' in kinds and (rng.random() < 0.34 or len(order) == 1)) else rng.choice([k for k in order if k != 'max'] or order)
+    return kind, express(rng, kinds[kind], first)
+
+
+def draw_chain(rng, lf, errs, pts, k, K, allow_save=True, allow_restart=True):
+    """interrupted history ending with continue(Lf): 1-3 interruptions, the last one at stream position k (0 <= k <= K)"""
+    r = rng.random()
+    n = 1 if r < 0.62 else 2 if r < 0.9 else 3
+    targets = sorted(rng.randrange(0, k + 1) for _ in range(n - 1)) + [k]
+    legs, kinds, pos = [], [], 0
+    for t in targets:
+        t = max(t, pos)
+        got = draw_interruption(rng, lf, errs, pts, pos, t, first=not legs)
+        if got is None:
+            continue                                       # position t cannot be a stop position of growing limits (e.g. counts repeat)
+        kinds.append(got[0])
+        legs.append(got[1])
+        pos = t
+    if not legs:
+        legs.append(express(rng, lf, True)); kinds.append('same')
+    if allow_restart and rng.random() < 0.15:
+        # the other documented way to continue: performSpatiallyAdaptiv(..., refinement_container=<refinement of the stopped run>)
+        final = dict(express(rng, lf, True), restart=True)
+    else:
+        final = express(rng, lf, False)
+    legs.append(final)
+    for leg in legs[1:]:
+        if allow_save and rng.random() < 0.45:
+            leg['save'] = True
+    return legs, kinds
 
 # ---------------------------------------------------------------------------------------------- implementation
 
 
+def structure(sa, case):
+    if case['strat'] != 'cell':
+        return A.structure(sa, case)
+    scheme = sorted(([int(x) for x in g.levelvector], A.fl(g.coefficient)) for g in sa.scheme)
+    objs = sorted((A.vec(o.start), A.vec(o.end)) for o in sa.refinement.get_objects())
+    return dict(scheme=scheme, objs=objs, lmax=[int(x) for x in sa.lmax])
+
+
 def snapshot(sa, op, case, ret):
-    return dict(structure=A.structure(sa, case), result=A.vec(ret[3]), integral=A.vec(op.integral), points=int(sa.get_total_num_points()),
+    return dict(structure=structure(sa, case), result=A.vec(ret[3]), integral=A.vec(op.integral), points=int(sa.get_total_num_points()),
                 distinct=len(set(op.f.log)),      # distinct integrand evaluations of the WHOLE run (the log is saved/restored with f)
                 errors=[A.fl(x) for x in ret[5]], surplus=[A.fl(x) for x in ret[7]], num_points=[int(x) for x in ret[6]])
 
@@ -70,10 +199,9 @@ class Runaway(Exception):
     pass
 
 
-def wrap_events(sa, cap=None):
+def wrap_events(sa, events, cap=None):
     """cap: a resumed run that double counts may never reach its tolerance again; stop it once it has used far more points than
     the uninterrupted run (it has then certainly left the uninterrupted run's path)"""
-    events = []
     oe, orf = sa.evaluate_operation, sa.refine
 
     def ev():
@@ -86,24 +214,30 @@ def wrap_events(sa, cap=None):
         events.append(1)
         return orf()
     sa.evaluate_operation, sa.refine = ev, rf
-    return events
+
+
+def unwrap(sa):
+    for name in ('evaluate_operation', 'refine'):
+        sa.__dict__.pop(name, None)
 
 
 def reevaluation_changes(sa, op, case, ret):
     """the theorem's hypothesis on the implementation: evaluate_operation on the evaluated state changes nothing observable"""
     sc = copy.deepcopy(sa)
-    for name in ('evaluate_operation', 'refine'):
-        sc.__dict__.pop(name, None)
-    before = dict(result=A.vec(sc.operation.integral), points=int(sc.get_total_num_points()), structure=A.structure(sc, case))
+    unwrap(sc)
+    before = dict(result=A.vec(sc.operation.integral), points=int(sc.get_total_num_points()), structure=structure(sc, case))
     with A.quiet():
         err, sur = sc.evaluate_operation()
-    after = dict(result=A.vec(sc.operation.integral), points=int(sc.get_total_num_points()), structure=A.structure(sc, case))
-    changed = [k for k in ('result', 'points', 'structure') if before[k] != after[k]]
-    if A.fl(err) != A.fl(ret[5][-1]):
+    after = dict(result=A.vec(sc.operation.integral), points=int(sc.get_total_num_points()), structure=structure(sc, case))
+    changed = [k for k in ('points', 'structure') if before[k] != after[k]]
+    if not close_vec(before['result'], after['result']):
+        changed.append('result')
+    e0, e1 = float(ret[5][-1]), float(err)
+    if not (abs(e0 - e1) <= 1e-9 * (abs(e0) + abs(e1)) or e0 == e1):
         changed.append('error')             # the error the stopping rule looks at
-    elif A.fl(sur) != A.fl(ret[7][-1]):
+    elif not (abs(float(sur) - float(ret[7][-1])) <= 1e-9 * (abs(float(sur)) + abs(float(ret[7][-1]))) or float(sur) == float(ret[7][-1])):
         changed.append('surplus')           # only the surplus estimate that is reported next to it
-    return changed, dict(error_before=float(ret[5][-1]), error_after=float(err), result_before=[A.unfl(x) for x in before['result']],
+    return changed, dict(error_before=e0, error_after=e1, result_before=[A.unfl(x) for x in before['result']],
                          result_after=[A.unfl(x) for x in after['result']])
 
 
@@ -114,12 +248,17 @@ def compare_restored(saved, restored, case, rng):
         diffs.append('result')
     if int(saved.get_total_num_points()) != int(restored.get_total_num_points()):
         diffs.append('points')
-    if A.structure(saved, case) != A.structure(restored, case):
+    if structure(saved, case) != structure(restored, case):
         diffs.append('structure')
+    for name in ('error_array', 'num_point_array', 'surplus_error_array', 'tolerance', 'reevaluate_at_end', 'lmax', 'lmin'):
+        if repr(getattr(saved, name, None)) != repr(getattr(restored, name, None)):
+            diffs.append(name)
     pts = [tuple(float(Fraction(rng.randrange(0, 33), 32)) * (bb - aa) + aa for aa, bb in zip(case['a'], case['b'])) for _ in range(5)]
     try:
+        # (on deep copies: interpolation may evaluate, through the cache, integrand points the quadrature has not used - the instance
+        #  that is continued must not be touched by the comparison)
         with A.quiet():
-            v1 = np.asarray(saved(pts)); v2 = np.asarray(restored(pts))
+            v1 = np.asarray(copy.deepcopy(saved)(pts)); v2 = np.asarray(copy.deepcopy(restored)(pts))
         if not np.array_equal(v1, v2):
             diffs.append('interpolation')
     except Exception as e:
@@ -127,33 +266,43 @@ def compare_restored(saved, restored, case, rng):
     return diffs
 
 
-def interrupted_run(case, l1, l2, save, rng, tag, cap):
+def run_history(case, legs, rng, tag, cap, check_hypothesis=True):
+    """one history on a fresh object; per leg: snapshot at its stop, hypothesis check, save/restore before a continuation"""
     from sparseSpACE.StandardCombi import StandardCombi
     sa, op, f, eo = A.build(case)
-    events = wrap_events(sa, cap)
-    r1 = A.perform(sa, eo, case, l1[0], l1[1], l1[2], reevaluate_at_end=bool(case.get('reeval')))
-    first = snapshot(sa, op, case, r1)
-    changed, detail = reevaluation_changes(sa, op, case, r1)
-    out = dict(first=first, reevaluation_changes=changed, reevaluation_detail=detail, saved=bool(save))
-    if save:
-        for name in ('evaluate_operation', 'refine'):
-            sa.__dict__.pop(name, None)            # closures of the harness are not part of the instance
-        path = os.path.join(os.environ.get('VERIF_WORK', '/verif/.work/C14'), 'inst-%s-%d.dill' % (tag, os.getpid()))
-        with A.quiet():
-            sa.save_to_file(path)
-            restored = StandardCombi.restore_from_file(path)
-        os.remove(path)
-        out['restore_diffs'] = compare_restored(sa, restored, case, rng)
-        sa, op = restored, restored.operation
-        ev2 = wrap_events(sa, cap)
-    try:
-        r2 = A.cont(sa, l2[0], l2[1], l2[2])
-        out['final'] = snapshot(sa, op, case, r2)
-    except Runaway:
-        r2 = (None, None, None, op.integral, None, sa.error_array, sa.num_point_array, sa.surplus_error_array)
-        out['final'] = snapshot(sa, op, case, r2)
-        out['runaway'] = True
-    out['events'] = events + (ev2 if save else [])
+    events = []
+    wrap_events(sa, events, cap)
+    out = []
+    for i, leg in enumerate(legs):
+        rec = dict(saved=bool(leg.get('save')) and i > 0)
+        if rec['saved']:
+            unwrap(sa)                                    # closures of the harness are not part of the instance
+            path = os.path.join(os.environ.get('VERIF_WORK', '/verif/.work/C14'), 'inst-%s-%d-%d.dill' % (tag, i, os.getpid()))
+            with A.quiet():
+                sa.save_to_file(path)
+                restored = StandardCombi.restore_from_file(path)
+            os.remove(path)
+            rec['restore_diffs'] = compare_restored(sa, restored, case, rng)
+            sa, op = restored, restored.operation
+            wrap_events(sa, events, cap)
+        e0 = len(events)
+        try:
+            if i == 0:
+                r = LG.call_perform(sa, eo, case, leg, reevaluate_at_end=bool(case.get('reeval')))
+            elif leg.get('restart'):
+                r = LG.call_perform(sa, sa.errorEstimator, case, leg, reevaluate_at_end=bool(case.get('reeval')), refinement_container=sa.refinement)
+            else:
+                r = LG.call_continue(sa, leg)
+        except Runaway:
+            r = (None, None, None, op.integral, None, sa.error_array, sa.num_point_array, sa.surplus_error_array)
+            rec['runaway'] = True
+        rec['events'] = events[e0:]
+        rec['snap'] = snapshot(sa, op, case, r)
+        if check_hypothesis and not rec.get('runaway'):
+            rec['reevaluation_changes'], rec['reevaluation_detail'] = reevaluation_changes(sa, op, case, r)
+        out.append(rec)
+        if rec.get('runaway'):
+            break
     return out
 
 
@@ -161,40 +310,47 @@ def impl_run(case):
     rng = random.Random(case['seed'])
     # probe: values on which the final limits are placed
     sp, opp, fp, eop = A.build(case)
-    rp = A.perform(sp, eop, case, -1.0, 1, case['probe_max'])
+    rp = LG.call_perform(sp, eop, case, {'tol': -1.0, 'min': 1, 'max': case['probe_max']})
     errs = [float(x) for x in rp[5]]
     pts = [int(x) for x in rp[6]]
-    l2 = case.get('l2')
-    if l2 is None:
-        if case.get('reeval') and rng.random() < 0.8:
-            # re-evaluation at every stop: runs limited by max_evaluations, final limit on / just below / just above an observed count
-            j = rng.randrange(max(1, len(pts) // 2), len(pts)) if len(pts) > 1 else 0
-            l2 = [-1.0, 1, max(0, pts[j] + rng.choice([-1, -1, 0, 0, 1, 2, -3]))]
-        else:
-            l2 = list(choose_limits(rng, errs, pts))
-        if not any((e <= l2[0] and p >= l2[1]) or (l2[2] is not None and p > l2[2]) for e, p in zip(errs, pts)):
-            l2[2] = pts[-1] - 1
+    if case.get('l2') is not None and case.get('final') is None:           # cases of round 1 (corpus, exemplars, old replays)
+        l2 = case['l2']
+        lf = (A.unfl(l2[0]) if isinstance(l2[0], str) else l2[0], l2[1], l2[2])
+        single_leg = {'tol': lf[0], 'min': lf[1], 'max': lf[2]}
+    elif case.get('single') is not None:
+        single_leg = case['single']
+        lf = LG.resolve(single_leg, True)
     else:
-        l2 = [A.unfl(l2[0]) if isinstance(l2[0], str) else l2[0], l2[1], l2[2]]
+        lf = draw_final(rng, case, errs, pts)
+        single_leg = express(rng, lf, True)
     # uninterrupted run with the final limits
-    su, opu, fu, eou = A.build(case)
-    evu = wrap_events(su)
-    ru = A.perform(su, eou, case, l2[0], l2[1], l2[2], reevaluate_at_end=bool(case.get('reeval')))
-    single = snapshot(su, opu, case, ru)
-    single['events'] = evu
-    K = len(single['errors']) - 1
-    ks = case.get('ks')
-    if ks is None:
-        ks = list(range(K + 1))
-        if len(ks) > 6:
-            ks = sorted(set([0, K] + rng.sample(range(1, K), 4)))
+    single = run_history(case, [single_leg], rng, 'single', cap=None, check_hypothesis=False)[0]
+    ssnap = single['snap']
+    uerrs = [A.unfl(x) for x in ssnap['errors']]
+    upts = ssnap['num_points']
+    K = len(uerrs) - 1
+    chains = case.get('chains')
+    if chains is None:
+        ks = case.get('ks')
+        if ks is None:
+            ks = list(range(K + 1))
+            if len(ks) > 6:
+                ks = sorted(set([0, K] + rng.sample(range(1, K), 4)))
+        chains = []
+        for k in ks:
+            if case.get('l2') is not None and case.get('final') is None:
+                # round-1 shape: one interruption by max_evaluations (identical limits at the last index), explicit arguments
+                l1 = dict(single_leg) if k >= K else {'tol': lf[0], 'min': lf[1], 'max': upts[k] - 1}
+                legs = [l1, dict(single_leg, **({'save': True} if case.get('save', (k + case['seed']) % 2 == 1) else {}))]
+                kinds = ['same' if k >= K else 'max']
+            else:
+                legs, kinds = draw_chain(rng, lf, uerrs, upts, k, K, allow_restart=(case['strat'] != 'cell'))
+            chains.append(dict(k=k, legs=legs, kinds=kinds))
     runs = []
-    for k in ks:
-        l1 = list(l2) if k >= K else [l2[0], l2[1], single['num_points'][k] - 1]
-        save = case.get('save', (k + case['seed']) % 2 == 1)
-        runs.append(dict(k=k, l1=[A.fl(l1[0]), l1[1], l1[2]],
-                         **interrupted_run(case, l1, l2, save, rng, 'k%d' % k, cap=4 * single['points'] + 200)))
-    return dict(l2=[A.fl(l2[0]), l2[1], l2[2]], single=single, runs=runs)
+    for ci, ch in enumerate(chains):
+        recs = run_history(case, ch['legs'], rng, 'c%d' % ci, cap=4 * ssnap['points'] + 200)
+        runs.append(dict(k=ch.get('k'), legs=ch['legs'], kinds=ch.get('kinds', []), recs=recs))
+    return dict(lf=[A.fl(float(lf[0])), lf[1], lf[2]], lf_tol_is_int=isinstance(lf[0], int), single_leg=single_leg, single=single, runs=runs)
 
 # ---------------------------------------------------------------------------------------------- comparison
 
@@ -220,68 +376,124 @@ def same_end(fin, single):
     return diffs
 
 
-def enc_lim(l):
-    return [q(l[0]), int(l[1]), [] if l[2] is None else [int(l[2])]]
+def leg_text(leg, first, legs=None):
+    args = ', '.join('%s=%r' % (k, leg[k]) for k in ('tol', 'min', 'max') if k in leg)
+    if leg.get('restart') and not first:
+        return 'performSpatiallyAdaptiv(%s)%s' % (', '.join(x for x in (args, 'refinement_container=<refinement of the stopped run>') if x),
+                                                 ' after save/restore' if leg.get('save') else '')
+    return '%s(%s)%s' % ('performSpatiallyAdaptiv' if first else 'continue_adaptive_refinement', args or 'defaults',
+                         ' after save/restore' if leg.get('save') and not first else '')
 
 
 def check_case(chk, case, r, mjobs):
-    single = r['single']
-    stream = [[q(e), q(s), int(p)] for e, s, p in zip(single['errors'], single['surplus'], single['num_points'])]
-    numbers_ok = all(finite(e) and finite(s) for e, s in zip(single['errors'], single['surplus']))
+    single = r['single']['snap']
+    stream = list(zip(single['errors'], single['surplus'], single['num_points']))
+    numbers_ok = all(finite(e) and finite(s) for e, s, _ in stream)
     base = len(mjobs)
     if numbers_ok:
         for run in r['runs']:
-            mjobs.append((0, [enc_lim(run['l1']), enc_lim(r['l2']), stream]))
+            mjobs.append((1, [[LG.enc_args(l, j) for j, l in enumerate(run['legs'])], LG.enc_args(r['single_leg']), LG.enc_stream(stream)]))
 
     def evaluate(mres):
         K = len(single['errors']) - 1
+        lf = LG.resolve(r['single_leg'], True)
         for i, run in enumerate(r['runs']):
-            changed = [x for x in run['reevaluation_changes'] if x != 'surplus']
-            if 'surplus' in run['reevaluation_changes']:
-                chk.count('re-evaluation changes only the reported surplus error (%s)' % case['strat'])
-            cause = 'none' if not changed else 'result' if 'result' in changed else 'error' if 'error' in changed else changed[0]
-            sig = {'strat': case['strat'], 'reevaluation_changes': cause}
-            fcase = dict(case, l2=r['l2'], ks=[run['k']], save=run['saved'])
-            diffs = same_end(run['final'], single) + (['does-not-stop (aborted by the harness at 4x the points)'] if run.get('runaway') else [])
+            legs, recs = run['legs'], run['recs']
+            changed_any = []
+            for rec in recs:
+                ch = rec.get('reevaluation_changes') or []
+                if 'surplus' in ch:
+                    chk.count('re-evaluation changes only the reported surplus error (%s)' % case['strat'])
+                changed_any += [x for x in ch if x != 'surplus']
+            cause = 'none' if not changed_any else 'result' if 'result' in changed_any else 'error' if 'error' in changed_any else changed_any[0]
+            restart = any(l.get('restart') for l in legs)
+            sig = {'strat': case['strat'], 'reevaluation_changes': cause, 'restart': restart}
+            fcase = dict(case, single=r['single_leg'], chains=[dict(legs=legs, kinds=run['kinds'], k=run['k'])])
+            for key in ('l2', 'ks', 'save'):
+                fcase.pop(key, None)
+            final = recs[-1]['snap']
+            complete = len(recs) == len(legs) and not recs[-1].get('runaway')
+            diffs = same_end(final, single) + ([] if complete else ['does-not-stop (aborted by the harness at 4x the points)'])
+            # stream position of every stop (every continuation re-evaluates the position it starts from; a restart empties the arrays)
+            stops, off = [], 0
+            for j, rec in enumerate(recs):
+                if j > 0 and legs[j].get('restart'):
+                    off = stops[-1] + j
+                stops.append(off + len(rec['snap']['errors']) - (j + 1))
+            text = '; '.join(leg_text(l, j == 0, legs) for j, l in enumerate(legs))
             if diffs:
                 chk.violation('oracle:resume', 'resume-differs', sig, fcase,
-                              dict(interrupted_at_evaluation=len(run['first']['errors']) - 1, of=K, saved_and_restored=run['saved'], differs=diffs,
-                                   l1=[A.unfl(run['l1'][0])] + run['l1'][1:], l2=[A.unfl(r['l2'][0])] + r['l2'][1:],
+                              dict(history=text, stopped_at_evaluations=stops, uninterrupted_run=leg_text(r['single_leg'], True), stops_at=K,
+                                   differs=diffs, saved_and_restored=[bool(rec['saved']) for rec in recs],
                                    uninterrupted=dict(result=[A.unfl(x) for x in single['result']], points=single['points']),
-                                   resumed=dict(result=[A.unfl(x) for x in run['final']['result']], points=run['final']['points']),
-                                   reevaluation=run['reevaluation_detail']))
-            for what, snap in (('interruption', run['first']), ('final stop', run['final'])):
+                                   resumed=dict(result=[A.unfl(x) for x in final['result']], points=final['points']),
+                                   reevaluation=[rec.get('reevaluation_detail') for rec in recs if rec.get('reevaluation_changes')][:1]))
+            for j, rec in enumerate(recs):
+                snap = rec['snap']
                 if snap['points'] != snap['distinct']:
                     chk.violation('oracle:points', 'point-count-differs', {'strat': case['strat'], 'reeval': bool(case.get('reeval'))}, fcase,
-                                  dict(at=what, k=run['k'], saved_and_restored=run['saved'], reported_points=snap['points'],
+                                  dict(at='stop of call %d' % j, history=text, saved_and_restored=rec['saved'], reported_points=snap['points'],
                                        distinct_integrand_evaluations_whole_run=snap['distinct']))
                     break
-            if run['saved'] and run.get('restore_diffs'):
-                chk.violation('oracle:restore', 'restore-differs', {'strat': case['strat'], 'what': ','.join(run['restore_diffs'])}, fcase,
-                              dict(k=run['k'], differs=run['restore_diffs']))
-            if changed:
-                chk.count('hypothesis evaluate-idempotent violated (%s: %s)' % (case['strat'], cause))
-            else:
-                chk.count('hypothesis evaluate-idempotent holds (%s)' % case['strat'])
-            # model: indices and history arrays of stop+continue, valid under the hypothesis
-            if numbers_ok and not changed:
+            for j, rec in enumerate(recs):
+                if rec['saved'] and rec.get('restore_diffs'):
+                    chk.violation('oracle:restore', 'restore-differs', {'strat': case['strat'], 'what': ','.join(rec['restore_diffs'])}, fcase,
+                                  dict(before_call=j, differs=rec['restore_diffs']))
+            chk.count('hypothesis evaluate-idempotent %s (%s%s)' % ('violated' if changed_any else 'holds', case['strat'], ': ' + cause if changed_any else ''))
+            # model: growth of the limits (verified checker), positions and history arrays of the whole history
+            if numbers_ok:
                 m = mres[base + i]
-                if sx.is_err(m):
+                if sx.is_err(m) or isinstance(m, tuple):
                     chk.violation('corr:C14/resume', 'model-rejects', sig, fcase, dict(model=str(m)[:300]), failing_input=False)
                     continue
-                idx_single, idx_first, idx_resumed, st_single, st_resumed = m
-                got = dict(single=K, first=len(run['first']['errors']) - 1,
-                           resumed_evaluations=len(run['final']['errors']), errs=[q(x) for x in run['final']['errors']],
-                           pts=run['final']['num_points'], trace=run['events'])
-                pred = dict(single=idx_single, first=idx_first, resumed_evaluations=len(st_resumed[0]),
-                            errs=[sx.q(x) for x in st_resumed[0]], pts=st_resumed[2], trace=st_resumed[3])
-                bad = [k for k in got if got[k] != pred[k]]
-                if idx_resumed != idx_single:
-                    bad.append('model-resume-index')
-                if bad:
-                    chk.violation('corr:C14/resume', 'resume-history-differs', dict(sig, observable=','.join(sorted(bad))), fcase,
-                                  dict(model={k: str(pred.get(k))[:200] for k in bad}, impl={k: str(got.get(k))[:200] for k in bad}),
-                                  failing_input=bool(diffs))
+                grow_ok, same_limits, single_stop, prefixes, mlims, mlf = m
+                if not all(LG.same_limits(ml, hl) for ml, hl in zip(mlims, LG.resolve_history(legs))) or not LG.same_limits(mlf, lf):
+                    chk.violation('corr:C14/resume', 'limits-resolution-differs', sig, fcase, dict(model=str(mlims) + str(mlf), history=text), failing_input=False)
+                    continue
+                if not grow_ok or not same_limits:
+                    # generator error (never on a correct harness): the history is not an instance of the theorem
+                    chk.violation('checker:limits_growb', 'history-does-not-grow-to-final-limits', sig, fcase,
+                                  dict(history=text, all_growb=grow_ok, last_is_single=same_limits), failing_input=False)
+                    continue
+                if changed_any:
+                    continue            # the theorem's hypothesis fails on the implementation: the model predicts nothing
+                cum = []
+                bad = []
+                if single_stop != K:
+                    bad.append('single-run-stop-index')
+                for j, rec in enumerate(recs):
+                    cum = cum + rec['events']
+                    pre = prefixes[j]
+                    if len(pre) != 2:
+                        bad.append('call-%d-leaves-the-stream' % j)
+                        break
+                    pos, st = pre
+                    got = dict(pos=stops[j], errs=[q(x) for x in rec['snap']['errors']], pts=rec['snap']['num_points'], trace=cum)
+                    pred = dict(pos=pos, errs=[sx.q(x) for x in st[0]], pts=st[2], trace=st[3])
+                    if j > 0 and legs[j].get('restart'):
+                        # performSpatiallyAdaptiv empties the history arrays: they hold the stream segment from the previous stop on
+                        pred['errs'] = [q(e) for e, _, _ in stream[stops[j - 1]:pos + 1]]
+                        pred['pts'] = [p for _, _, p in stream[stops[j - 1]:pos + 1]]
+                    if case.get('reeval') or any(l.get('restart') for l in legs[:j + 1]):
+                        # (a restart re-evaluates everything from scratch as well)
+                        # evaluate_final_combi at a stop recomputes the combination from scratch (other summation order, and it may
+                        # evaluate component-grid points the incremental evaluation skipped): the continuation's error values equal
+                        # those of the uninterrupted run only up to rounding and the count recorded by its first (re-)evaluation may
+                        # be larger; the DECISIONS (positions, event trace) must be those of the model
+                        # (C14_resume_equals_uninterrupted_upto: states equivalent, not equal)
+                        bad += ['call-%d-%s' % (j, k) for k in ('pos', 'trace') if got[k] != pred[k]]
+                    else:
+                        bad += ['call-%d-%s' % (j, k) for k in got if got[k] != pred[k]]
+                    if bad:
+                        break
+                if complete and prefixes and len(prefixes[-1]) == 2 and prefixes[-1][0] != single_stop:
+                    bad.append('model-resume-index')        # (contradicts C14_legs_grow_end_at_single_stop: cannot happen)
+                if bad and diffs:
+                    chk.count('model/implementation difference already reported by the property predicate (concrete failing input)')
+                elif bad:
+                    chk.violation('corr:C14/resume', 'resume-history-differs', dict(sig, observable=','.join(sorted(set(x.split('-', 2)[-1] for x in bad)))), fcase,
+                                  dict(history=text, differs=bad, model_positions=[p[0] for p in prefixes], impl_positions=stops, single_stop=[single_stop, K]),
+                                  failing_input=False)
             chk.traces += 1
     return evaluate
 
@@ -292,24 +504,50 @@ CORPUS = [
          errcalc=['scripted', 5], version=6, rebalancing=True, probe_max=70, reeval=True),
     dict(strat='dw', a=[0, 0], b=[1, 1], comps=[[[1, [2, 0]], [3, [1, 3]]]], ref=[0.7083333333333334], norm=0, boundary=True, lmin=1, lmax=2, seed=15,
          errcalc='lib', version=3, rebalancing=True, probe_max=70, reeval=True),
-    # exemplars of the known findings
+    # exemplars of the known findings (round-1 shape: one interruption by max_evaluations, explicit arguments)
     dict(strat='es', a=[0, 0], b=[1, 1], comps=[[[1, [2, 0]], [3, [1, 3]]]], ref=[0.7083333333333334], norm=0, boundary=True, lmin=1, lmax=2, seed=11,
          errcalc='lib', nrbe=1, auto=False, probe_max=100, l2=[-1.0, 1, 60]),
     dict(strat='dw', a=[0, 0], b=[1, 1], comps=[[[1, [2, 0]], [3, [1, 3]]]], ref=None, norm=0, boundary=True, lmin=1, lmax=2, seed=12,
          errcalc='lib', version=6, rebalancing=True, probe_max=70, l2=[0.03, 1, None]),
     dict(strat='dw', a=[0, 0], b=[1, 1], comps=[[[1, [2, 0]], [3, [1, 3]]]], ref=[0.7083333333333334], norm=0, boundary=True, lmin=1, lmax=2, seed=13,
          errcalc='lib', version=6, rebalancing=True, probe_max=70, l2=[0.008, 30, 100]),
+    # tolerance stop, then tol=0 with a larger budget (int and float zero, with and without save/restore, defaults left implicit)
+    dict(strat='es', a=[0, 0], b=[1, 1], comps=[[[1, [2, 0]], [3, [1, 3]]]], ref=[0.7083333333333334], norm=0, boundary=True, lmin=1, lmax=2, seed=16,
+         errcalc='lib', nrbe=1, auto=False, probe_max=200, single={'tol': 0, 'max': 150},
+         chains=[dict(legs=[{'max': 150}, {'tol': 0, 'max': 150}]), dict(legs=[{'tol': 0.02, 'min': 1, 'max': 150}, {'tol': 0.0, 'max': 150, 'save': True}]),
+                 dict(legs=[{'tol': 0.02, 'max': 100}, {'tol': 0.012, 'max': 150, 'min': 1, 'style': 'pos'}, {'tol': 0, 'max': 150, 'min': 1, 'style': 'pos'}])]),
+    dict(strat='dw', a=[0, 0], b=[1, 1], comps=[[[1, [2, 0]], [3, [1, 3]]]], ref=[0.7083333333333334], norm=0, boundary=True, lmin=1, lmax=2, seed=17,
+         errcalc='lib', version=6, rebalancing=True, probe_max=200, single={'tol': 0.0, 'max': 120},
+         chains=[dict(legs=[{'max': 120}, {'tol': 0.0, 'max': 120}]), dict(legs=[{'tol': 0.02, 'max': 120}, {'tol': 0, 'max': 120, 'save': True}]),
+                 dict(legs=[{'tol': 0.03, 'max': 90}, {'max': 100}, {'tol': 0, 'max': 120}])]),
+    # continuing through performSpatiallyAdaptiv(refinement_container=...): exemplar of the known finding (extend-split) and the
+    # dimension-wise counterpart (holds)
+    dict(strat='es', a=[0, 0], b=[1, 1], comps=[[[1, [2, 0]], [3, [1, 3]]]], ref=[0.7083333333333334], norm=0, boundary=True, lmin=1, lmax=2, seed=19,
+         errcalc='lib', nrbe=1, auto=False, probe_max=120, single={'tol': -1.0, 'max': 100},
+         chains=[dict(legs=[{'tol': -1.0, 'max': 40}, {'tol': -1.0, 'max': 100, 'restart': True}])]),
+    dict(strat='dw', a=[0, 0], b=[1, 1], comps=[[[1, [2, 0]], [3, [1, 3]]]], ref=[0.7083333333333334], norm=0, boundary=True, lmin=1, lmax=2, seed=20,
+         errcalc='lib', version=6, rebalancing=True, probe_max=120, single={'tol': -1.0, 'max': 100},
+         chains=[dict(legs=[{'tol': -1.0, 'max': 40}, {'tol': -1.0, 'max': 100, 'restart': True}]),
+                 dict(legs=[{'tol': 0.02, 'max': 100}, {'max': 60, 'tol': -1.0, 'save': True}, {'tol': -1.0, 'max': 100, 'restart': True, 'save': True}])]),
+    # the final limits are the DEFAULTS of continue_adaptive_refinement / performSpatiallyAdaptiv
+    dict(strat='dw', a=[0, 0], b=[1, 1], comps=[[[1, [2, 0]], [3, [1, 3]]]], ref=[0.7083333333333334], norm=0, boundary=True, lmin=1, lmax=2, seed=18,
+         errcalc='lib', version=6, rebalancing=True, probe_max=300, single={'tol': 0.001},
+         chains=[dict(legs=[{}, {}]), dict(legs=[{'tol': 0.02}, {'save': True}]), dict(legs=[{'max': 60}, {'tol': 0.001, 'min': 1}])]),
 ]
 
 
 def run(chk):
     chk.coq_obligations()
-    n = chk.n(44, 1500)
+    n = chk.n(84, 700)
     cases = CORPUS + [gen_case(chk.rng, chk.quick) for _ in range(n)]
     impl = run_impl(impl_run, cases, limit=150)
     mjobs, todo, keys, samples = [], [], [], []
     for c, (st, r) in zip(cases, impl):
-        chk.count('strat=' + c['strat']); chk.count('ref=' + ('none' if c['ref'] is None else 'given')); chk.count('reevaluate_at_end=%s' % bool(c.get('reeval')))
+        chk.count('strat=' + c['strat']); chk.count('ref=' + ('none' if c['ref'] is None else 'zero' if all(x == 0 for x in c['ref']) else 'given'))
+        chk.count('reevaluate_at_end=%s' % bool(c.get('reeval'))); chk.count('dim=%d' % len(c['a'])); chk.count('norm=%d' % c['norm'])
+        for k in ('version', 'rebalancing', 'nrbe', 'auto', 'grid', 'ggrid', 'single_dim', 'margin', 'boundary'):
+            if k in c:
+                chk.count('%s:%s=%s' % (c['strat'], k, c[k]))
         if st != 'ok':
             where = r[1] if r else ''
             if st == 'exc' and 'spatiallyAdaptiveBase.py' not in where and 'StandardCombi.py' not in where:
@@ -318,27 +556,53 @@ def run(chk):
             chk.violation('corr:C14/resume', 'impl-exception', {'strat': c['strat'], 'exc': r[0] if r else st}, c, dict(impl=str(r)))
             continue
         todo.append(check_case(chk, c, r, mjobs))
-        if r['single']['points'] != r['single']['distinct']:
-            chk.violation('oracle:points', 'point-count-differs', {'strat': c['strat'], 'reeval': bool(c.get('reeval'))}, dict(c, l2=r['l2'], ks=[]),
-                          dict(at='uninterrupted run', reported_points=r['single']['points'], distinct_integrand_evaluations_whole_run=r['single']['distinct']))
-        K = len(r['single']['errors']) - 1
+        ssnap = r['single']['snap']
+        if ssnap['points'] != ssnap['distinct']:
+            chk.violation('oracle:points', 'point-count-differs', {'strat': c['strat'], 'reeval': bool(c.get('reeval'))}, dict(c, single=r['single_leg'], chains=[]),
+                          dict(at='uninterrupted run', reported_points=ssnap['points'], distinct_integrand_evaluations_whole_run=ssnap['distinct']))
+        K = len(ssnap['errors']) - 1
+        lf = LG.resolve(r['single_leg'], True)
         chk.count('uninterrupted-evaluations=%s' % (K + 1 if K < 6 else '7+'))
-        chk.count('interruptions', len(r['runs'])); chk.count('with-save-restore', sum(1 for x in r['runs'] if x['saved']))
+        chk.count('uninterrupted-points=%s' % ('<100' if ssnap['points'] < 100 else '<250' if ssnap['points'] < 250 else '250+'))
+        chk.count('final tol=%s' % ('negative' if lf[0] < 0 else 'zero-int' if lf[0] == 0 and isinstance(lf[0], int) else 'zero-float' if lf[0] == 0 else
+                                    'default-of-continue' if lf[0] == LG.CONTINUE_DEFAULT_TOL else 'default-of-perform' if lf[0] == LG.PERFORM_DEFAULT_TOL else 'positive'))
+        chk.count('final max=%s' % ('none' if lf[2] is None else 'given')); chk.count('uninterrupted call ' + LG.leg_key(r['single_leg']))
+        chk.count('histories', len(r['runs']))
         for run_ in r['runs']:
+            legs = run_['legs']
+            chk.count('legs-in-history=%d' % len(legs)); chk.count('save/restore-in-history=%d' % sum(1 for l in legs[1:] if l.get('save')))
+            for kd in run_['kinds']:
+                chk.count('interruption stopped by: ' + kd)
+            chk.count('final call ' + LG.leg_key(legs[-1]))
+            for j, l in enumerate(legs):
+                chk.count('call-style=%s' % l.get('style', 'keywords'))
+            lims = LG.resolve_history(legs)
+            chk.count('final call is %s' % ('a restart: performSpatiallyAdaptiv(refinement_container=...)' if legs[-1].get('restart') else 'continue_adaptive_refinement'))
+            if len(lims) >= 2 and lims[-1][0] == 0 and lims[-2][0] > 0 and 'tol' in ''.join(run_['kinds'][-1:]):
+                went_on = len(run_['recs']) == len(legs) and run_['recs'][-1]['events'].count(1) > 0
+                chk.count('final call tol=0 after a tolerance stop' + (' (refines on)' if went_on else ' (nothing left to do)'))
+            if any(not LG.grows(lims[j], lims[j + 1]) for j in range(len(lims) - 1)):
+                chk.count('history whose limits do not grow from leg to leg (all grow to the final ones)')
+            first_stop_at = len(run_['recs'][0]['snap']['errors']) - 1
+            chk.count('first interruption at %s' % ('first evaluation' if first_stop_at == 0 else 'last evaluation' if first_stop_at == K else 'inner evaluation'))
             if K >= 1:
-                keys.append((c['strat'], bool(c.get('reeval')), str(c['comps']), str(r['l2']), run_['k'], run_['saved'], str(c.get('errcalc')), c.get('version'), str(c['ref'])))
+                keys.append((c['strat'], bool(c.get('reeval')), str(c['comps']), json.dumps(r['single_leg'], sort_keys=True), json.dumps(legs, sort_keys=True),
+                             str(c.get('errcalc')), c.get('version'), str(c['ref'])))
         if len(samples) < 3 and K >= 2:
-            samples.append(dict(strat=c['strat'], l2=[A.unfl(r['l2'][0])] + r['l2'][1:], uninterrupted_points=r['single']['num_points'],
-                                interruptions=[dict(k=x['k'], saved=x['saved'], final_points=x['final']['points'],
-                                                    same=not same_end(x['final'], r['single'])) for x in r['runs']]))
+            samples.append(dict(strat=c['strat'], uninterrupted=leg_text(r['single_leg'], True), uninterrupted_points=ssnap['num_points'],
+                                histories=[dict(history='; '.join(leg_text(l, j == 0, x['legs']) for j, l in enumerate(x['legs'])),
+                                                final_points=x['recs'][-1]['snap']['points'],
+                                                same=not same_end(x['recs'][-1]['snap'], ssnap)) for x in r['runs']]))
     mres = run_model(14, mjobs)
     for ev in todo:
         ev(mres)
     chk.record_cases(sum(len(r['runs']) for (st, r) in impl if st == 'ok'), keys,
-                     'every interruption index (<= 6 per run, always incl. first and last) of uninterrupted dimension-wise / extend-split runs '
-                     '(d 2..3, lmax 2..3, reference given/zero/none, norms, library and scripted error calculators, final limits placed on observed '
-                     'values), every second one with dill save/restore; a case = one (run, interruption index); non-trivial = the uninterrupted run '
-                     'has at least two evaluations; distinct by (strategy, integrand, limits, index, save, options)', samples)
+                     'interrupted histories for every interruption index (<= 6 per run, always incl. first and last) of uninterrupted dimension-wise / '
+                     'extend-split / cell runs (d 2..3, lmax 2..3, reference given/zero/none, norms, library and scripted error calculators, final limits '
+                     'placed on observed values, tol=0, default tolerances): 1-3 interruptions per history stopped by max / tolerance / minimum / identical '
+                     'limits, all growing to the final limits, final continuation explicit or with defaults, save/restore before ~45% of the continuations; '
+                     'a case = one history; non-trivial = the uninterrupted run has at least two evaluations; distinct by (strategy, integrand, uninterrupted '
+                     'call, history, options)', samples)
 
 
 def replay(chk, rep):
